@@ -17,10 +17,14 @@ mod glibc;
 mod rfmt;
 #[path = "c16/sec_format.rs"]
 mod sec_format;
+#[path = "c16/sec_parse.rs"]
+mod sec_parse;
 #[path = "c16/sec_rfc2822.rs"]
 mod sec_rfc2822;
 #[path = "c16/sec_roundtrip.rs"]
 mod sec_roundtrip;
+#[path = "c16/sec_table.rs"]
+mod sec_table;
 #[path = "c16/sec_zoned.rs"]
 mod sec_zoned;
 
@@ -43,7 +47,9 @@ fn main() {
         }));
     }
     sec_format::run(&r);
+    sec_table::run(&r);
     sec_roundtrip::run(&r);
+    sec_parse::run(&r);
     sec_zoned::run(&r);
     sec_rfc2822::run(&r);
     r.finish();
